@@ -315,6 +315,13 @@ class C16(PropCheck):
                 seen.add(v)
                 ch.append(v)
             chains.append(ch)
+        # wave 4: the LOCATION of the data is not left to chance either: three of every 16 cases sit 2^20 spreads away from the
+        # origin (v + 2^20 is exact on the k/64 grid), as a parameter of order 1e6 known to a few units does; the textbook value
+        # is computed exactly on these floats, a sum-of-squares variance loses eps * (mean / sd)^2 ~ 1e-4 of R-hat there
+        loc = 2.0 ** 20 if (j % 16) in (2, 7, 13) else 0.0
+        if loc:
+            chains = [[v + loc for v in ch] for ch in chains]
+            self.bump('diag:location=2^20')
         s0 = SCALES[s_idx] if mode in (2, 3) else 1.0
         if s0 != 1.0:
             chains = [[s0 * v for v in ch] for ch in chains]      # distinct k/64 stay distinct after one rounding
